@@ -23,7 +23,10 @@ pub struct Env {
     pub high: Ghost<Seq<ControlMessage>>,
     pub normal: Ghost<Seq<ControlMessage>>,
     pub picked: Ghost<int>,          // the queue the latest message was taken from (0 urgent 1 high 2 normal); meaningful right after a successful receive
+    pub closed: Ghost<bool>,         // every sender (every Job handle) has been dropped: the three queues are closed, nothing arrives any more
 }
+// ASSUMPTION (tokio mpsc): once every sender is dropped the queues stay closed and nothing is appended to them
+pub open spec fn closure_kept(a: &Env, b: &Env) -> bool { a.closed@ ==> b.closed@ && b.urgent@ == a.urgent@ && b.high@ == a.high@ && b.normal@ == a.normal@ }
 
 // frame: what an environment call that only lets time pass / lets other tasks send may change
 pub open spec fn is_prefix_grown(a: Seq<ControlMessage>, b: Seq<ControlMessage>) -> bool { a.len() <= b.len() && b.subrange(0, a.len() as int) == a }
@@ -287,7 +290,7 @@ pub assume_specification<T> [core::mem::replace::<T>] (dest: &mut T, src: T) -> 
 pub fn unbounded_channel() -> (r: (Tx, Rx)) ensures r.0.which == r.1.which { unimplemented!() }
 pub open spec fn q(env: &Env, w: u8) -> Seq<ControlMessage> { if w == 0 { env.urgent@ } else if w == 1 { env.high@ } else { env.normal@ } }
 pub open spec fn others_same(a: &Env, b: &Env, w: u8) -> bool {
-    (w != 0 ==> b.urgent == a.urgent) && (w != 1 ==> b.high == a.high) && (w != 2 ==> b.normal == a.normal) && b.now == a.now && same_world(a, b)
+    (w != 0 ==> b.urgent == a.urgent) && (w != 1 ==> b.high == a.high) && (w != 2 ==> b.normal == a.normal) && b.now == a.now && same_world(a, b) && b.closed == a.closed
 }
 impl Rx {
     #[verifier::external_body]
@@ -321,11 +324,21 @@ impl Tx {
 // deadline has passed; if a sleep branch is present the call returns no later than max(deadline, entry).
 // Fairness/randomisation of tokio's select is abstracted to "any ready branch"; cancelling the other branches has no effect
 // (true for mpsc recv and sleep_until).
-pub struct Branch { pub kind: u8, pub until: Option<Instant> }   // kind: 0 urgent 1 high 2 normal 3 sleep
+pub struct Branch { pub kind: u8, pub until: Option<Instant>, pub refutable: bool }   // kind: 0 urgent 1 high 2 normal 3 sleep; refutable: the arm's pattern is `Some(..)`
+// `Some(x) = fut => ..`: a branch whose future completes with None is disabled and the select! goes on with the others (else arm when none is left)
+pub fn vx_refutable(b: Branch) -> (r: Branch) ensures r.kind == b.kind, r.until == b.until, r.refutable { Branch { kind: b.kind, until: b.until, refutable: true } }
+// the stand-in hands out a refutable branch only with a value its pattern matches: the other match arm is proved unreachable
+#[verifier::external_body]
+pub fn vx_select_refuted<T>() -> (r: T) requires false { unimplemented!() }
+// every branch disabled and no else arm: tokio panics. Reaching this is a failed obligation
+#[verifier::external_body]
+pub fn vx_select_all_disabled<T>() -> (r: T)
+    requires false, // OBL:C07+C06.recv.select_never_panics
+{ unimplemented!() }
 pub struct Sleep { pub until: Instant }
 pub fn sleep_until(i: Instant) -> (r: Sleep) ensures r.until == i { Sleep { until: i } }
 impl Sleep {
-    pub fn vx_branch(&self) -> (b: Branch) ensures b.kind == 3, b.until == Some(self.until) { Branch { kind: 3, until: Some(self.until) } }
+    pub fn vx_branch(&self) -> (b: Branch) ensures b.kind == 3, b.until == Some(self.until), !b.refutable { Branch { kind: 3, until: Some(self.until), refutable: false } }
     #[verifier::external_body]
     pub fn vx_complete(self, env: &mut Env) requires old(env).now@ >= self.until.t ensures *final(env) == *old(env) { unimplemented!() }
 }
@@ -334,31 +347,34 @@ impl Rx {
     pub fn recv(&mut self) -> (r: RecvFut) ensures r.which == old(self).which, final(self).which == old(self).which { RecvFut { which: self.which } }
 }
 impl RecvFut {
-    pub fn vx_branch(&self) -> (b: Branch) ensures b.kind == self.which, b.until is None { Branch { kind: self.which, until: None } }
+    pub fn vx_branch(&self) -> (b: Branch) ensures b.kind == self.which, b.until is None, !b.refutable { Branch { kind: self.which, until: None, refutable: false } }
     #[verifier::external_body]
+    // UnboundedReceiver::recv completes with the oldest message, or with None once the queue is closed (every sender dropped) and empty
     pub fn vx_complete(self, env: &mut Env) -> (r: Option<ControlMessage>)
-        requires q(old(env), self.which).len() > 0, self.which <= 2,
+        requires q(old(env), self.which).len() > 0 || old(env).closed@, self.which <= 2,
         ensures others_same(old(env), final(env), self.which),
-            r is Some && r->Some_0 == q(old(env), self.which)[0]
-                && q(final(env), self.which) == q(old(env), self.which).subrange(1, q(old(env), self.which).len() as int),
-            final(env).picked@ == self.which,
+            q(old(env), self.which).len() > 0 ==> r is Some && r->Some_0 == q(old(env), self.which)[0]
+                && q(final(env), self.which) == q(old(env), self.which).subrange(1, q(old(env), self.which).len() as int)
+                && final(env).picked@ == self.which,
+            q(old(env), self.which).len() == 0 ==> r is None && q(final(env), self.which) == q(old(env), self.which),
     { unimplemented!() }
 }
 pub open spec fn select_post(bs: Seq<Branch>, i: int, pre: &Env, post: &Env) -> bool {
-    0 <= i < bs.len() && arrivals_only(pre, post) && same_world(pre, post)
-    && (bs[i].kind <= 2 ==> q(post, bs[i].kind).len() > 0)
-    && (bs[i].kind == 3 ==> bs[i].until is Some && post.now@ >= bs[i].until->Some_0.t)
+    0 <= i <= bs.len() && arrivals_only(pre, post) && same_world(pre, post) && closure_kept(pre, post)
+    && (i < bs.len() ==> branch_ready(bs[i], post))
+    // index == number of branches: every branch is disabled, i.e. each is a `Some(..)` arm on a queue that is closed and empty
+    && (i == bs.len() ==> forall|j: int| 0 <= j < bs.len() ==> (#[trigger] bs[j]).kind <= 2 && bs[j].refutable && post.closed@ && q(post, bs[j].kind).len() == 0)
     && (forall|j: int| 0 <= j < bs.len() && #[trigger] bs[j].kind == 3 && bs[j].until is Some ==>
             post.now@ <= (if pre.now@ >= bs[j].until->Some_0.t { pre.now@ } else { bs[j].until->Some_0.t }))
 }
 // `select! { biased; ... }`: the branches are polled in the order written, so the one taken is the FIRST that is ready at that moment
 pub open spec fn branch_ready(b: Branch, e: &Env) -> bool {
-    (b.kind <= 2 && q(e, b.kind).len() > 0) || (b.kind == 3 && b.until is Some && e.now@ >= b.until->Some_0.t)
+    (b.kind <= 2 && (q(e, b.kind).len() > 0 || (!b.refutable && e.closed@))) || (b.kind == 3 && b.until is Some && e.now@ >= b.until->Some_0.t)
 }
 #[verifier::external_body]
 pub fn vx_select_biased3(b0: Branch, b1: Branch, b2: Branch, env: &mut Env) -> (i: usize)
     ensures select_post(seq![b0, b1, b2], i as int, old(env), final(env)),
-        i >= 1 ==> !branch_ready(b0, final(env)), i >= 2 ==> !branch_ready(b1, final(env)),
+        i >= 1 ==> !branch_ready(b0, final(env)), i >= 2 ==> !branch_ready(b1, final(env)), i >= 3 ==> !branch_ready(b2, final(env)),
 { unimplemented!() }
 #[verifier::external_body]
 pub fn vx_select3(b0: Branch, b1: Branch, b2: Branch, env: &mut Env) -> (i: usize)
